@@ -337,6 +337,10 @@ class Ev:
       if isinstance(v, TupleV) and all(isinstance(x, Elem) for x in v.items):
         return Opaque(core.norm(e))
       return v
+    if isinstance(f, ast.Name) and f.id in ('str', 'repr') and len(e.args) == 1:
+      v = self.ev(e.args[0], env, depth)
+      if isinstance(v, Elem):
+        return v               # the image of the generic element: same index
     if isinstance(f, ast.Name) and f.id in self.state_classes:
       if not e.args:
         return SetV(FALSE)
